@@ -1,99 +1,121 @@
 #!/usr/bin/env python3
-"""Regenerates MANIFEST.json from the table below (so it stays valid and current)."""
-import json, subprocess
+"""Regenerates MANIFEST.json from the table below (so it stays valid and current).
+Edit CHECKS here, never MANIFEST.json by hand."""
+import json
+
 BASE = "cd /repo && (cargo nextest run --workspace --no-fail-fast --offline 2>/dev/null || cargo test --workspace --no-fail-fast --offline)"
-hook_commits = ["3d5eae8", "8c1d9c0"]
+HOOK_COMMITS = ["3d5eae8", "8c1d9c0"]
+TRUST = "jsonwebtoken / ring / serde_json / base64 / sha2 are correct; beyond the stated bounds the small-scope hypothesis"
+
+# id: (category, engine, technique, text, level_note, design_ref)
 CHECKS = {
- "C01": ("exploration", "E1 pipeline", "exhaustive enumeration of claim trees x strategies x selections x configurations against a reference model",
-   "Every (claim tree, strategy incl. every Custom path subset, type-consistent selection, configuration) of the stated scopes is issued, presented and verified through the real API and compared with the reference view(U,H,D). Quick: S(4,3) complete in the cheapest configuration, S(3,3) with rotating 36 configurations, S(2,2) x 36, alphabet passes, depth chains <= 6. Thorough: S(5,4), S(4,3) rotating, S(3,3) x 36, chains <= 8.",
-   "jsonwebtoken/ring/serde_json/base64/sha2 correct; small-scope hypothesis beyond the stated bounds", "4 C01"),
-}
-CHECKS.update({
- "C05": ("exploration", "E1 pipeline (issuance only)", "exhaustive enumeration of claim trees x every strategy (all path subsets, malformed paths) x configurations; output decoded by an independent codec and compared with the reference hidden-set model",
-   "Every (claim tree, strategy, configuration) of the scopes is issued through the real API; the harness decodes the returned string itself and checks: clear part == view(U,H,{}), all disclosures applied == U with the from-disclosure paths == H, every disclosure referenced exactly once, digests unique, _sd_alg/iss/iat/exp/cnf as stated, bad path refused, dangling path inert. Quick S(4,3) x 8 cfgs + S(3,3) x 36; thorough S(5,4) x 8 + S(4,3) x 36.",
-   "jsonwebtoken/ring/serde_json/base64/sha2 correct; Custom-strategy member names free of '.', '[' and non-empty as the property stipulates", "4 C05"),
- "C06": ("exploration", "E1 pipeline (holder output)", "exhaustive enumeration of selections per credential; presentation decoded by an independent codec and compared with the reference selected-set model; plus every arbitrary selector JSON up to a node bound for the weak form",
-   "Strong form: same scopes as C01, observed at create_presentation's output (byte-identical JWT, disclosure multiset == expected, KB-JWT iff requested, exact framing). Weak form: every selector JSON with <= 3 (quick) / 4 (thorough) nodes over names {a,b,zz} against 18 credentials: any returned presentation holds only genuine disclosures, once each, ancestor-closed.",
-   "same trusted base as C01", "4 C06"),
- "C12": ("exploration", "E1 pipeline (issuance, decoys)", "exhaustive enumeration of claim trees x strategies x decoy flag x 3 issuances; every object of the decoded payload and disclosure values inspected; order clause decided on every _sd list (sortedness), statistical fallback only if a list is unsorted",
-   "Every object of the user claims (root, nested, in arrays, inside hidden values, empty) must carry >= 1 unmatched 32-byte digest when decoys are on and none when off; digests unique per credential and across the run; inert clause = C01+C06 oracles with decoys on over S(3,3)/S(4,3).",
-   "the order-leak fallback rule is the property's own statistical rule and is only reached if some _sd list is not sorted", "4 C12"),
- "C13": ("fault_enumeration", "E1 (issuance, planted reserved names)", "exhaustive fault enumeration: reserved name planted at every object node of every tree x values x strategies x formats, with look-alike controls",
-   "For every tree of S(4,3) (thorough S(5,4)), every object node, name in {_sd, ...}, 7 values, first/last position, 5 strategies, 2 formats: issuance must return Err; the unplanted tree and 8 look-alike names must be issued.",
-   "refusal observed as Err from issue_sd_jwt", "4 C13"),
- "C16": ("exploration", "E1 pipeline in the mock_salts build (worker subprocesses)", "exhaustive enumeration of claim trees x strategies x formats x salt-queue slack in the deterministic-salt build, one case at a time per process (SALTS is process-global)",
-   "For every (tree, strategy, format, slack r in {0,1,5}): salts in the output == first k of the queue in order and SALTS keeps exactly the last r; two runs give byte-identical strings (HS256, EdDSA) / identical payload+disclosures (ES256); the full C05 oracle and the issue->present->verify round trip (select all / none, decoys off and on) hold. Quick S(4,3)+alphabets on S(2,2)+chains; thorough S(5,4)+alphabets on S(3,3).",
-   "holds for the mock_salts compilation only; salt queues of distinct base64url strings", "4 C16"),
- "C02": ("fault_enumeration", "E2 tamper", "exhaustive fault enumeration: every single-character substitution/deletion/insertion at every position of the issuer-signed JWT of 36 honest presentations, plus the full structural/algorithm/key catalogue, each verified by the real verifier",
-   "36 honest bases (3 algs x 2 formats x kb off/on x 3 credentials) are built through the real issuer and holder and must verify (control, with the resolver's arguments recorded). Every tampering of the catalogue must be rejected with Err: all single-character edits over a 72-character alphabet, every payload member/digest/element changed, removed or duplicated with the original signature, all proper mixes of two tokens of the same key, signature removed/emptied/truncated to every length, alg rewritten to 17 values with the signature kept/emptied/removed/HMAC-with-the-public-key(PEM,DER,raw)/attacker-signed, 7 other resolver keys, iss confusion over a two-issuer resolver.",
-   "jsonwebtoken/ring/base64 correct; single edits complete, pairs of edits not covered", "4 C02"),
- "C09": ("exploration", "E2 grid", "exhaustive grid enumeration of exp x nbf x format x key binding x algorithm x construction path against the real verifier",
-   "Full product of 2 credentials x 2 formats x kb off/on x algs x 22 exp values x 9 nbf values, each built through the real issuer+holder and also signed directly by the harness; must-reject points (exp absent/non-numeric/past by >= 300 s, nbf future by >= 300 s) must give Err, in-window points Ok.",
+ "C01": ("exploration", "E1 pipeline",
+   "exhaustive bounded enumeration (model checking of a sequential library): every claim tree x strategy x selection x configuration of the scope is issued, presented and verified through the real API and compared with a reference model",
+   "Every (claim tree, strategy incl. every Custom path subset, type-consistent selection, configuration) of the scopes goes through the real issuer, holder and verifier; verified claims must equal view(U,H,D) (+cnf), with no digest list / placeholder / marker left. Quick: S(4,3) complete in the cheapest configuration; S(3,3) with rotating 36 configurations; S(2,2) x 36; leaf, name, name-prefix, string-pair alphabets; wide containers (11..1100 entries); depth chains <= 6; selections naming visible claims; honest verification right after an ill-formed one of the same credential. Thorough: S(5,4); S(4,3) x all 36 configurations; alphabets on S(3,3); chains <= 8.",
+   TRUST, "4 C01, 10.3, 10.7"),
+ "C02": ("fault_enumeration", "E2 tamper",
+   "exhaustive fault enumeration: every single-character substitution / deletion / insertion at every position of the issuer-signed JWT of 36 honest presentations, plus the complete structural / algorithm / key / issuer-name catalogue, each verified by the real verifier",
+   "36 honest bases (3 algs x 2 formats x kb off/on x 3 credentials) built through the real issuer and holder must verify (control, resolver arguments recorded). Every tampering must give Err: all single-character edits over a 72-character alphabet on all 36 bases; every payload member / digest / element changed, removed, duplicated with the original signature; all proper mixes of two tokens of one key; signature removed / emptied / truncated to every length; alg rewritten to 17 values with the signature kept / emptied / removed / HMAC keyed with the public key (PEM, DER, raw) / attacker-signed; 9 other resolver keys; iss confusion over a two-issuer resolver and over every ordered pair of 17 related issuer names; after each distinct rejection path the honest control must still verify. Thorough adds every pair of substitutions at distance <= 2 over the base64url alphabet on 12 bases (41 M mutants).",
+   TRUST + "; single edits complete, pairs only in windows", "4 C02"),
+ "C03": ("model_checking", "E3 intruder (disclosure lists)",
+   "explicit-state enumeration of everything a bounded channel intruder can assemble as a disclosure list from its knowledge base; every list is submitted to the real verifier and judged against the reference view",
+   "Per credential (S(3,2) quick / S(3,3) thorough x TopLevel, AllLevels, every Custom subset x decoys / JSON; nothing-like leaves; depth chains): every subset of the genuine disclosures in every order (|G| <= 4; issuance / reverse / rotations for 5..6), each with one duplicated item, each with one foreign item (a second credential's disclosures, 10 forgeries per genuine disclosure, 9 forged claims naming iss / exp / cnf / _sd_alg / existing / new names, 7 garbage strings) at every position; thorough adds pairs of foreign items. Oracle: Err, or exactly view(U,H,closure(L∩G)); lists the real holder emits must be accepted, also right after any other list.",
+   "SHA-256 preimage resistance; the forgery catalogue is finite", "4 C03"),
+ "C04": ("model_checking", "E3 intruder (key binding) + E2 character sweep",
+   "explicit-state enumeration of intruder compositions (credential x disclosure list x KB-JWT item x verifier expectation x format) judged by a three-valued model verdict, plus every single-character edit of honest KB-JWTs",
+   "Sessions A, B (same holder key), C (other key, same kid), N (no cnf); 19 disclosure lists per session (S, S', reordered, plus / minus one, duplicated, orphan child, foreign, empty string at every position, empty); 12 KB-JWTs made by the real holder + 63 forged (typ / nonce / aud / sd_hash absent / other / wrong type, iat / exp / nbf of every numeric shape, re-signed by attacker / issuer / other-holder key, HS256 keyed with the public key, alg none, unsigned) + absent / empty / garbage; 7 verifier expectations; 2 formats; ES256 and EdDSA holder keys; the space again in reverse order on one thread. MustReject => Err, MustAccept => Ok with the exact view, Either => Err or exact view; after every rejection the honest presentation still verifies. Plus a 19 x 19 aud / nonce string alphabet and every single-character edit of 4 honest KB-JWTs. Thorough adds the full field product (324 forged KB-JWTs) and two more key / algorithm worlds.",
+   "the harness holds holder key h1 to build field-level forgeries; iat freshness is not asserted", "4 C04"),
+ "C05": ("exploration", "E1 pipeline (issuance only)",
+   "exhaustive bounded enumeration of claim trees x every strategy (all path subsets, malformed and dangling paths) x configurations; the returned string is decoded by an independent codec and compared with the reference hidden-set model",
+   "Clear part == view(U,H,{}); all disclosures applied == U with from-disclosure paths == H; every disclosure referenced exactly once; digests and salts unique; _sd_alg / iss / iat / exp / cnf / header alg as stated; bad path refused, dangling path inert. Quick: S(4,3) x all strategies x 8 cfgs; S(3,3) x 36; 34 malformed / dangling / non-canonical paths x every subset of S(2,2); alphabets incl. path-safe names with every Custom subset; name-prefix family on S(3,3); wide containers; chains; one reused issuer per tree. Thorough: S(5,4) x 8, S(4,3) x 36.",
+   TRUST + "; Custom-strategy member names free of '.', '[' and non-empty, as the property stipulates", "4 C05"),
+ "C06": ("exploration", "E1 pipeline (holder output)",
+   "exhaustive bounded enumeration of selections per credential; the presentation is decoded by an independent codec and compared with the reference selected-set model; every arbitrary selector JSON up to a node bound for the weak form",
+   "Strong form: C01's scopes observed at create_presentation's output (byte-identical JWT, disclosure multiset == expected, KB-JWT iff requested, exact framing). Weak form: every selector JSON with <= 3 (quick) / 4 (thorough) nodes over {a, b, zz} and over the reserved names, against 18 credentials x 2 cfgs: a returned presentation holds only genuine disclosures, once each, ancestor-closed. Reused-holder pass: one holder per credential serves every selection in turn with key binding alternately on / off.",
+   TRUST, "4 C06"),
+ "C07": ("exploration", "E6 robust (worker subprocesses)",
+   "exhaustive bounded enumeration of input grammars per entry point, executed in isolated worker processes with crash attribution and a watchdog",
+   "Quick: all 813 k strings of length <= 5 over a 15-token structural alphabet and 60 k JSON-form member assignments given to verifier (with / without key-binding expectation) and holder (+ 4 selections, + KB); 2.6 k type substitutions in header / payload / disclosures of valid tokens (signed and unsigned); the C08 space; 3.6 k selector JSONs x 198 full and partial SD-JWTs; 10.7 k issuer inputs (all JSON values <= 3 nodes, alphabets incl. reserved names, chains to depth 64, path catalogue); 84 deep inputs around serde_json's recursion limit on the 8 MB main-thread stack; 540 undecodable non-ASCII disclosure strings in a valid token; 1.1 k validly signed KB-JWTs with every value shape per claim / header member. Thorough: length <= 7, selectors <= 4 nodes, C08 pairs. Oracle: no panic (catch_unwind), worker alive, watchdog silent. A 100 k / 1 M random-string sweep is auxiliary sampling.",
+   "'any byte string' is replaced by complete enumeration of structural grammars; non-termination is detected by a watchdog, not proved absent", "4 C07"),
+ "C08": ("fault_enumeration", "E3 signed-structure enumeration",
+   "exhaustive fault enumeration over a deviation catalogue applied to well-formed signed structures; the real verifier is compared with an independent transcription of the specification's algorithm",
+   "8 well-formed bases x every single deviation and every pair (quick), plus every triple on 2 bases / of the structural core on 6 (thorough), x 2 formats, signed by the harness with the test key: _sd list shape, placeholder shape, _sd_alg top / nested, disclosure decoded form of length 0..5 with every type at the name slot, reserved / colliding names (incl. _sd_alg at the top level), wrong container kind, duplicates, unreferenced. Model Reject => Err required; model Claims / May => Ok must carry exactly the model's claims; Panic never; after every deviation the well-formed base still verifies.",
+   "spec_verify is the harness's transcription of draft-07 section 8.1 step 3", "4 C08, 10.4"),
+ "C09": ("exploration", "E2 grid",
+   "exhaustive grid enumeration of exp x nbf x format x key binding x algorithm x construction path against the real verifier",
+   "Full product of 2 credentials x 2 formats x kb off / on x algs x 22 exp values x 9 nbf values, each built through the real issuer + holder and also signed directly by the harness; must-reject points give Err, in-window points Ok; every presentation is verified twice and once in the other serialization, the verdict must not change.",
    "wall clock not virtualised; no assertion within 300 s of a boundary", "4 C09"),
- "C15": ("exploration", "E1 chains", "exhaustive enumeration of narrowing chains of selections per credential with a differential oracle (narrowed vs direct)",
-   "Every pair D1 >= D2 (and chains of length 3; thorough: 4) of type-consistent selections on every credential of the scope: a holder built from the previous presentation must return the same disclosure multiset and verified claims as selecting directly from the issued SD-JWT. Quick: S(3,3) x {All,Top,every Custom subset} pairs, S(2,2) chains of 3, depth chains; thorough adds S(3,3) chains of 3, S(2,2) chains of 4, S(4,3) pairs.",
+ "C10": ("exploration", "relational transcoding over the E1 / E2 / E3 spaces",
+   "exhaustive bounded enumeration of (JWT, disclosure list, KB-JWT) triples from the honest, tampered, adversarial-list, key-binding-attack and ill-formed spaces, each verified in compact and 2-4 JSON renderings with identical arguments",
+   "Same accept / reject and equal claims between the compact form and every JSON rendering (kb_jwt absent / null / \"\", unknown extra members) for: S(3,3) honest presentations under rotating 36 cfgs; holders built from the issued and the transcoded form (fresh, and as a reused pair with key binding alternating) must select the same disclosures and their outputs must verify alike; the C02 structural catalogue + 120 character edits on 36 bases under right / other key; C03 list families on S(3,2); the whole C04 composition space for ES256 and EdDSA holder keys; the C08 space; the honest triple again after rejections. Issuer outputs of both formats project to the same structure.",
+   "triples containing '~' inside a part are not expressible in compact form and are skipped (counted)", "4 C10"),
+ "C11": ("model_checking", "E4 history",
+   "breadth-first exploration of the prefix tree of API call histories on one live instance; each history is executed on the real object and its last result is checked against the single-call oracles, a fresh instance, and all earlier results",
+   "Issuer: every sequence of length <= 4 (quick) / 5 (thorough) over a 12-operation alphabet (two disjoint claim sets, 4 strategies, 3 holder keys, decoys, formats, 4 failing calls) and every sequence up to 8 over a 3 / 4-operation core with ES256 and EdDSA keys. Holder (compact and JSON): every sequence <= 4 / 5 over a 10-operation alphabet (selections x key-binding arguments, 3 failing) and up to 8 over a core. The last call must satisfy C05 (issuer) or C06 + verification incl. key binding (holder), have the Ok / Err class of the same call on a fresh instance, and repeat no earlier disclosure / salt / digest.",
+   "states are histories (instances are not clonable)", "4 C11"),
+ "C12": ("exploration", "E1 pipeline (issuance, decoys)",
+   "exhaustive bounded enumeration of claim trees x strategies x decoy flag x 3 issuances; every object of the decoded payload and disclosure values is inspected; the order clause is decided on every _sd list (sortedness), the property's own statistical rule is the fallback only if a list is unsorted, evaluated per sub-population",
+   "Every object of the user claims (root, nested, in arrays, inside hidden values, empty) carries >= 1 unmatched 32-byte digest with decoys on and none with decoys off; digests unique per credential and across the run; wide credentials (up to ~1200 decoys in one); 150 / 1500 consecutive issuances on one issuer instance; inert clause = C01 + C06 oracles with decoys on over S(3,3) / S(4,3).",
+   "the order-leak fallback rule is the property's own statistical rule and is only reached if some _sd list is not sorted", "4 C12"),
+ "C13": ("fault_enumeration", "E1 (issuance, planted reserved names)",
+   "exhaustive fault enumeration: a reserved name planted at every object node of every tree x values x strategies x formats, with look-alike controls, each call made twice on one instance",
+   "For every tree of S(4,3) (thorough S(5,4)), every object node, name in {_sd, ...}, 7 values, first / last position, 5 strategies, 2 formats, and inside container-valued iat / iss / exp: issuance must return Err, on the first and on the second call of one instance; the unplanted tree and 8 look-alike names must be issued.",
+   "refusal observed as Err from issue_sd_jwt", "4 C13"),
+ "C14": ("model_checking", "E5 scheduler over real OS threads",
+   "stateless exhaustive exploration of all interleavings of salt draws of 2-4 real OS threads under a token-passing scheduler (hook points before / after each draw and at API boundaries), plus sequential histories and a cross-process run, all salts and decoy digests in one set",
+   "Every interleaving of 8 (quick; 14 800 schedules) / 15 (thorough; ~1.5 M schedules) thread configurations is executed on the real issuer, including one thread parked between drawing and using a salt while another draws 300; per run and across the whole check every salt is base64url of >= 16 bytes, all salts and decoy digests pairwise distinct, every embedded digest the SHA-256 of its disclosure text, no decoy the hash of a disclosure's salt; names that spell another node's path; histories of 1..16 instances; 16 free-running threads (auxiliary); 2 processes started together. Unpredictability itself is outside the family: an 8-sigma per-bit frequency monitor is auxiliary statistics.",
+   "real threads because the generator is thread_local!; interleavings inside one RNG call are not explored; rand::ThreadRng quality is trusted", "4 C14, 10.2"),
+ "C15": ("exploration", "E1 chains",
+   "exhaustive bounded enumeration of narrowing chains of selections per credential with a differential oracle (narrowed vs direct)",
+   "Every pair D1 >= D2 (and chains of length 3; thorough: 4) of type-consistent selections on every credential of the scope: a holder built from the previous presentation returns the same disclosure multiset and verified claims as selecting directly from the issued SD-JWT. Quick: S(3,3) x {All, Top, every Custom subset} pairs, S(2,2) chains of 3, depth chains; thorough adds S(3,3) chains of 3, S(2,2) chains of 4, S(4,3) pairs.",
    "presentations without key-binding JWT, as the property states", "4 C15"),
- "C08": ("fault_enumeration", "E3 signed-structure enumeration", "exhaustive fault enumeration over a deviation catalogue applied to well-formed signed structures, real verifier compared with an independent transcription of the specification's algorithm",
-   "8 well-formed base structures (flat, nested, arrays, object-in-array, disclosure-in-disclosure, nested arrays, everything) x every single deviation and every pair of deviations of the catalogue (_sd list shape, placeholder shape, _sd_alg top/nested, disclosure decoded form of length 0..5 with every type at the name slot, reserved/colliding names, wrong container kind, duplicates, unreferenced) x 2 formats, signed by the harness with the test key. Model Reject => Err required; model Claims/May => Ok must carry exactly the model's claims; Panic never.",
-   "spec_verify is the harness's transcription of draft-07 8.1 step 3; jsonwebtoken correct", "4 C08"),
- "C03": ("model_checking", "E3 intruder (disclosure lists)", "explicit-state enumeration of everything a bounded channel intruder can assemble as a disclosure list (genuine, second-credential, forged, garbage items), every list submitted to the real verifier and judged against the reference view",
-   "Per credential (S(3,2) quick / S(3,3) thorough x TopLevel, AllLevels, every Custom subset x decoys/JSON; depth chains): every subset of the genuine disclosures in every order (|G|<=4; issuance/reverse/rotations for 5..6), each with one duplicated item, each with one foreign item (second credential's disclosures, 10 forgeries per genuine disclosure, 9 forged claims naming iss/exp/cnf/_sd_alg/existing/new names, 7 garbage strings) at every position; thorough adds pairs of foreign items. Oracle: Err, or exactly view(U,H,closure(L∩G)); lists the real holder emits must be accepted.",
-   "SHA-256 preimage resistance; forgery catalogue is finite", "4 C03"),
- "C04": ("model_checking", "E3 intruder (key binding) + E2 char sweep", "explicit-state enumeration of intruder compositions (credential x disclosure list x KB-JWT item x verifier expectation x format) judged by a three-valued model verdict, plus every single-character edit of honest KB-JWTs",
-   "Sessions A,B (same holder key), C (other holder key), N (no cnf); 11 disclosure lists per session (S, S', reordered, plus/minus one, duplicated, empty); 16 KB-JWT items made by the real holder + 40 forged (typ/nonce/aud/sd_hash absent/other/wrong type, re-signed by attacker/issuer/other-holder key, HS256 keyed with the public key, alg none, unsigned) + absent/empty/garbage; 7 verifier expectations; 2 formats; ES256 and EdDSA holder keys. MustReject => Err, MustAccept (holder-made honest) => Ok with the exact view, Either => Err or exact view. Plus 10x10 aud/nonce string alphabet and every single-character edit of 4 honest KB-JWTs.",
-   "the harness holds holder key h1 to build field-level forgeries; iat freshness not asserted", "4 C04"),
- "C11": ("model_checking", "E4 history", "breadth-first exploration of the prefix tree of API call histories on one live instance; each history executed on the real object and its last result checked against the single-call oracles and all earlier results",
-   "Issuer: every sequence of length <= 3 (quick) / 4 (thorough) over a 12-operation alphabet (two disjoint claim sets, 4 strategies, 3 holder keys, decoys, formats, 4 failing calls) and every sequence of length up to 8 over a 3/4-operation core with ES256 and EdDSA keys. Holder (compact and JSON): every sequence <= 3/4 over a 10-operation alphabet (selections x key-binding arguments, 3 failing) and up to 8 over a core. Last call must satisfy C05 (issuer) or C06+verification incl. key binding (holder); no earlier disclosure/salt/digest reappears; failing calls fail.",
-   "states are histories (instances are not clonable); single-call oracles as in C05/C06/C01/C04", "4 C11"),
- "C14": ("model_checking", "E5 scheduler over real OS threads", "stateless exhaustive exploration of all interleavings of salt draws of 2-4 real OS threads under a token-passing scheduler (hook points before/after each draw and at API boundaries), plus sequential histories and a cross-process run, all salts and decoy digests of the run in one set",
-   "Every interleaving of 6 (quick) / 10 (thorough) thread configurations is executed on the real issuer (11,400 schedules quick); per run and across the whole check every salt must be base64url of >= 16 bytes, all salts and decoy digests pairwise distinct, every embedded digest the SHA-256 of its disclosure text, no decoy the hash of a disclosure's salt. Sequential histories 1..16 instances, 16 free-running threads (auxiliary), 2 processes started together. Unpredictability itself is outside the family: an 8-sigma per-bit frequency monitor is reported as auxiliary statistics.",
-   "real threads because the generator is thread_local!; interleavings inside one RNG call are not explored; rand::ThreadRng quality is trusted", "4 C14"),
- "C07": ("exploration", "E6 robust (worker subprocesses)", "exhaustive enumeration of input grammars per entry point (token-alphabet strings, JSON-form assignments, single-position type substitutions, signed ill-formed structures, selector JSON, issuer inputs, deepest inputs) executed in isolated worker processes with crash attribution and a watchdog",
-   "Quick: all 402k strings of length <= 5 over a 13-token structural alphabet and 60k JSON-form member assignments given to verifier (with/without key-binding expectation) and holder (+4 selections, +KB); 2.6k type substitutions in header/payload/disclosures of valid tokens (signed and unsigned); the C08 space; 2.7k selector JSONs x 198 full and partial SD-JWTs; 10.7k issuer inputs (all JSON values <= 3 nodes, alphabets incl. reserved names, chains to depth 64, path catalogue); 84 deep inputs around serde_json's recursion limit on the 8 MB main-thread stack. Thorough: length <= 6 (5.2M strings), selectors <= 4 nodes, C08 pairs. Oracle: no panic (catch_unwind), worker alive, watchdog silent. A 100k/1M random-string sweep is auxiliary sampling.",
-   "'any byte string' is replaced by complete enumeration of structural grammars; non-termination detected by watchdog only", "4 C07"),
- "C10": ("exploration", "relational transcoding over E1/E2/E3 spaces", "exhaustive enumeration of (JWT, disclosure list, KB-JWT) triples from the honest, tampered, adversarial-list, key-binding-attack and ill-formed spaces, each verified in compact and 2-4 JSON renderings with identical arguments",
-   "Same accept/reject and equal claims required between the compact form and every JSON rendering (kb_jwt absent/null/\"\", unknown extra members) for: S(3,3) honest presentations under rotating 36 cfgs (holders built from the issued and the transcoded form must select the same disclosures), the C02 structural catalogue + 120 character edits on 36 bases under right/other key, C03 list families on S(3,2), the whole C04 composition space for ES256 and EdDSA holder keys, the C08 space. Issuer outputs of both formats must project to the same structure.",
-   "triples containing '~' inside a part are not expressible in compact form and are skipped", "4 C10"),
-})
-NOT_YET = {}
+ "C16": ("exploration", "E1 pipeline in the mock_salts build (worker subprocesses)",
+   "exhaustive bounded enumeration of claim trees x strategies x formats x salt-queue slack in the deterministic-salt build, one case at a time per process (SALTS is process-global)",
+   "For every (tree, strategy, format, slack r in {0,1,5}): salts in the output == first k of the queue in order and SALTS keeps exactly the last r; two runs (fresh issuers, and twice on one instance) give byte-identical strings (HS256, EdDSA) / identical payload + disclosures (ES256); the full C05 oracle and the issue -> present -> verify round trip (select all / none, decoys off and on) hold. Quick: S(4,3) + alphabets on S(2,2) + string pairs + chains; thorough S(5,4) + alphabets on S(3,3).",
+   "holds for the mock_salts compilation only; salt queues of distinct base64url strings", "4 C16"),
+}
+
+
 def main():
-    props=[json.loads(l) for l in open('/verif/properties.jsonl')]
-    checks=[]
-    na=[]
+    props = [json.loads(l) for l in open('/verif/properties.jsonl')]
+    checks, na = [], []
     for p in props:
-        pid=p['id']
+        pid = p['id']
         if pid in CHECKS:
             cat, eng, tech, text, note, ref = CHECKS[pid]
             checks.append({
-              "property_id": pid,
-              "quick_cmd": f"./check {pid} quick",
-              "thorough_cmd": f"./check {pid} thorough",
-              "evidence_file": f"/verif/evidence/{pid}.json",
-              "replay_cmd_template": "./check replay {path}",
-              "engine": eng,
-              "level_claimed": {"category": cat, "text": text, "design_ref": "DESIGN.md section "+ref},
-              "level_note": note,
-              "technique": tech,
+                "property_id": pid,
+                "quick_cmd": f"./check {pid} quick",
+                "thorough_cmd": f"./check {pid} thorough",
+                "evidence_file": f"/verif/evidence/{pid}.json",
+                "replay_cmd_template": "./check replay {path}",
+                "engine": eng,
+                "level_claimed": {"category": cat, "text": text, "design_ref": "DESIGN.md section " + ref},
+                "level_note": note,
+                "technique": tech,
             })
         else:
-            na.append({"property_id": pid, "reason": NOT_YET.get(pid, "check not built yet in this round (planned: see DESIGN.md section 4); not claimed until it runs")})
-    m={
-      "version":1,
-      "setup_cmd":"cd /verif/mc && CARGO_NET_OFFLINE=true cargo build --release --offline --bin mc && CARGO_NET_OFFLINE=true CARGO_TARGET_DIR=/verif/mc/target-mock cargo build --release --offline --features mock --bin mc",
-      "hooks":{
-        "guard":"cargo feature verif_hooks of sd-jwt-rs (off by default)",
-        "enable":"the harness crate /verif/mc depends on sd-jwt-rs by path (/repo) with features=[\"verif_hooks\"]; C16 additionally enables mock_salts (the crate's own feature)",
-        "baseline_off_cmd": BASE,
-        "source_commits": hook_commits,
-        "add_only": True
-      },
-      "engines":[
-        {"name":"mc","path":"/verif/mc","serves_properties":[c["property_id"] for c in checks],"kind_free_text":"Rust harness: exhaustive bounded enumeration driving the real sd-jwt-rs API against a reference model (explicit-state / exhaustive-input model checking)"}
-      ],
-      "checks":checks,
-      "not_applicable":na,
-      "notes":"Exit 0 = property held on everything explored (KNOWN-FINDING lines possible), 1 = VIOLATION with replay file, >=2 = machinery failure (never a verdict). known_findings.json lists genuine defects; all found so far were repaired by fix: commits in /repo."
+            na.append({"property_id": pid, "reason": "check not built"})
+    m = {
+        "version": 1,
+        "setup_cmd": "cd /verif/mc && CARGO_NET_OFFLINE=true cargo build --release --offline --bin mc && CARGO_NET_OFFLINE=true CARGO_TARGET_DIR=/verif/mc/target-mock cargo build --release --offline --features mock --bin mc",
+        "hooks": {
+            "guard": "cargo feature verif_hooks of sd-jwt-rs (off by default)",
+            "enable": "the harness crate /verif/mc depends on sd-jwt-rs by path (/repo) with features=[\"verif_hooks\"]; C16 additionally enables mock_salts (the crate's own feature)",
+            "baseline_off_cmd": BASE,
+            "source_commits": HOOK_COMMITS,
+            "add_only": True,
+        },
+        "engines": [
+            {"name": "mc", "path": "/verif/mc", "serves_properties": [c["property_id"] for c in checks],
+             "kind_free_text": "Rust harness: exhaustive bounded enumeration (inputs, fault sequences, call histories, intruder compositions, thread schedules) driving the real sd-jwt-rs API against a reference model; explicit-state / stateless model checking of the implementation itself"}
+        ],
+        "checks": checks,
+        "not_applicable": na,
+        "notes": "Exit 0 = property held on everything explored, 1 = VIOLATION with replay file, >= 2 = machinery failure (never a verdict). known_findings.json lists 13 genuine defects found by these checks on the original tree; all were repaired by fix: commits in /repo (status fixed, nothing suppressed); tools/regressions.sh replays the minimal case of each. A violation that does not reproduce in isolation is confirmed by a second complete run in a fresh process before it is reported (history-dependent failures). seeded/ holds 88+ independently produced property-breaking changes with the checks that catch them (DESIGN.md 10.6).",
     }
-    json.dump(m, open('/verif/MANIFEST.json','w'), indent=1)
+    json.dump(m, open('/verif/MANIFEST.json', 'w'), indent=1)
     print("checks:", [c["property_id"] for c in checks], "na:", [n["property_id"] for n in na])
+
+
 main()
